@@ -25,7 +25,7 @@ ERR_COQ = {"index": "EIndex", "subvector": "ESubvector", "wider": "EWider", "ran
 #   "coded" = Models/Fixed.v `agrees`       : /repo as it is (the tree with the C19 fix commits)
 #   "eqfix" = Models/Fixed.v `agrees_eqfix` : /repo after seeded/_proposed_fixes/C19_eq_fix.diff
 #             (switch the default when that patch is applied; only `eq_num` differs)
-MODEL = os.environ.get("C19_MODEL", "coded")
+MODEL = os.environ.get("C19_MODEL", "eqfix")
 PRED = {"coded": "agrees", "eqfix": "agrees_eqfix"}[MODEL]
 RUN = {"coded": "run", "eqfix": "run_eqfix"}[MODEL]
 
